@@ -21,6 +21,12 @@ Oracle, per sendall call:
     zero-byte returns; after 20 it first lets every other task run until none can act any
     more (fairness; from then on the state is frozen and every iteration repeats the previous one), after 120 it aborts the call: "loops forever".  The scheduler's step
     budget is the second guard;
+  * timed mode, under the virtual clock: the peer's task lets (virtual) time pass between its messages, so WINDOW_ADJUSTs of 0 bytes
+    / of a few bytes that a competing sender takes first reach a parked timed sender at generated times ("timed" family: window
+    0/1/5, timeout 0.5/1, 1-2 senders with more data than window, 1-5 x (sleep 0.1..0.6, adjust 0|1|5), then anything).  Within one
+    send() call the waits on the window condition (Condition.wait entry -> return with the lock re-acquired) are summed up; a NEW wait
+    that begins although the earlier ones already add up to the channel timeout = the call waits beyond its own budget instead of
+    raising socket.timeout.  (Each span lies inside the span the code measures itself, so correct code can never trip this.)
   * a call still parked when nothing can run any more (deadlock) is acceptable only while
     the channel is open for writing with a zero window and no timeout (it is waiting for
     the peer); parked although the channel is closed / EOF was sent = never woken.
@@ -42,7 +48,10 @@ RULE = (
     "events) || 1-2 application tasks (1-3 of sendall/sendall_stderr with 0..300 KiB, shutdown_write, shutdown(2), close, sleep)] "
     "on a real Channel over a fake transport under the deterministic scheduler (generated preemption list, lock-level and "
     "optionally line-level switch points in channel.py); non-trivial = a sendall of >=1 byte ran after or overlapping a "
-    "half-close / close / peer close / peer EOF / loss event; distinct by SHA-1 of the case"
+    "half-close / close / peer close / peer EOF / loss event, or a timed sender was woken without getting window; distinct by SHA-1 of the case. "
+    "Peer tasks may sleep (virtual time) between messages; 'timed' family: window {0,1,5} x timeout {0.5,1} x 1-2 senders (sendall/sendall_stderr of "
+    "100..40000 bytes) || peer: 1-5 x (sleep 0.1..0.6, WINDOW_ADJUST 0|1|5) + <=2 further events; oracle adds: the window waits of one send() call never "
+    "restart once they add up to the timeout"
 )
 
 SIZES = [0, 1, 5, 100, 4032, 5000, 40000]
@@ -71,13 +80,34 @@ app_op = st.one_of(
     st.tuples(st.just("sleep"), st.sampled_from([0.25, 1.0])),
 )
 
+# passage of (virtual) time between the peer's messages: WINDOW_ADJUSTs (of 0 bytes, or small ones a competing sender takes) reach
+# a parked timed sender at generated times
+peer_sleep = st.tuples(st.just("sleep"), st.sampled_from([0.1, 0.2, 0.25, 0.3, 0.45, 0.6]))
+# a timed sender with more to send than the window holds || the peer: (time passes, a WINDOW_ADJUST of 0 bytes or of a few bytes -
+# which a competing sender may take first) repeated 1-5 times, then anything
+_big = st.sampled_from([100, 4032, 5000, 40000])
+_timed_sender = st.tuples(st.tuples(st.sampled_from(["sendall", "sendall", "sendall_stderr"]), _big), st.lists(app_op, max_size=1)).map(lambda t: [t[0]] + list(t[1]))
+_drip = st.tuples(peer_sleep, st.tuples(st.just("adjust"), st.sampled_from([0, 0, 0, 1, 5])))
+timed_case_st = st.fixed_dictionaries(
+    {
+        "win": st.sampled_from([0, 0, 1, 5]),
+        "maxpkt": st.sampled_from([4096, 32768]),
+        "timeout": st.sampled_from([0.5, 0.5, 1.0]),
+        "history": st.lists(st.tuples(st.just("adjust"), st.sampled_from([0, 1, 5])), max_size=1),
+        "peer": st.tuples(st.lists(_drip, min_size=1, max_size=5), st.lists(st.one_of(peer_op, peer_sleep), max_size=2)).map(lambda t: [op for pair in t[0] for op in pair] + list(t[1])),
+        "apps": st.lists(_timed_sender, min_size=1, max_size=2),
+        "sched": S.schedule_strategy(max_pre=4, max_gap=60, max_forced=12),
+        "trace": st.booleans(),
+    }
+)
+
 case_st = st.fixed_dictionaries(
     {
         "win": st.sampled_from(WINDOWS),
         "maxpkt": st.sampled_from([4096, 32768]),
         "timeout": st.sampled_from([None, None, 0.0, 0.5]),
         "history": st.lists(st.one_of(peer_op, local_event), max_size=3),
-        "peer": st.lists(peer_op, max_size=3),
+        "peer": st.lists(st.one_of(peer_op, peer_op.map(lambda v: v), peer_op.map(lambda v: (v)), peer_sleep), max_size=3),
         "apps": st.lists(st.lists(app_op, min_size=1, max_size=3), min_size=1, max_size=2),
         "sched": S.schedule_strategy(max_pre=4, max_gap=60, max_forced=12),
         "trace": st.booleans(),
@@ -115,8 +145,38 @@ class Bench:
         self.calls = []  # dicts per sendall call
         self.events = []  # (log index, name)
         self.zeros = {}
+        self.rewaits = 0  # send calls that went back to waiting after a wake-up that left them without window
+        self._wrap_window_wait()
         self._wrap_send("send")
         self._wrap_send("send_stderr")
+
+    def _wrap_window_wait(self):
+        """Observation of the timed waits on the send-window condition, per send()/send_stderr() call of a task: the virtual
+        time each wait lasted (from the call of Condition.wait to its return, i.e. with the lock re-acquired).  Every such span
+        lies inside the span the code itself measures around the wait, so the budget the code has used up is at least their
+        sum: a NEW wait that begins when the earlier waits of the same call already add up to the channel timeout means the
+        call waits beyond its own budget (exact under the virtual clock, no slack needed)."""
+        cv = self.chan.out_buffer_cv
+        real_wait = cv.wait
+        s = self.s
+        spent = self.spent = {}  # task -> virtual seconds spent in window waits during its current send call
+        self.over = []  # (task, budget, spent, n-th wait)
+        self.nwaits = {}
+
+        def wait(timeout=None):
+            me = s.current_name()
+            t = self.chan.timeout
+            if t is not None and t > 0 and me in spent:
+                self.nwaits[me] = self.nwaits.get(me, 0) + 1
+                if spent[me] >= t:
+                    self.over.append((me, t, spent[me], self.nwaits[me]))
+            t0 = s.now
+            r = real_wait(timeout)
+            if me in spent:
+                spent[me] += s.now - t0
+            return r
+
+        cv.wait = wait
 
     def _wrap_send(self, name):
         chan = self.chan
@@ -125,8 +185,15 @@ class Bench:
         s = self.s
 
         def wrapped(data):
-            n = real(data)
             me = s.current_name()
+            self.spent[me] = 0.0  # a fresh budget per send() call
+            self.nwaits[me] = 0
+            try:
+                n = real(data)
+            finally:
+                if self.nwaits.get(me, 0) >= 2:
+                    self.rewaits += 1
+                self.spent.pop(me, None)
             if n == 0 and len(data) > 0:
                 z = zeros[me] = zeros.get(me, 0) + 1
                 if z == SPIN_FAIR:
@@ -283,6 +350,12 @@ def judge(bench, res, case):
     for name, info in res.tasks.items():
         if info.exc is not None:
             viol.append(("operation-raised", "%s" % type(info.exc).__name__, "%s: %s" % (name, info.tb)))
+    for me, t, spent, nth in bench.over[:1]:
+        viol.append(("timed-send-waits-beyond-its-timeout", "wait-no-%s" % ("2" if nth == 2 else ">2"), "task %s: a send call with timeout %s began its wait no %d on the window although its earlier waits had already lasted %.3f virtual seconds" % (me, t, nth, spent)))
+    if bench.rewaits:
+        classes.add("timed-or-untimed-sender-woken-without-window-and-waiting-again")
+    if case.get("timeout") and bench.rewaits:
+        classes.add("timed-sender-woken-without-window-and-waiting-again")
     if res.switched_in(lambda t: t[0] == "line"):
         classes.add("preempted-at-channel.py-line")
     if res.switched_in(lambda t: t[0] == "send"):
@@ -307,11 +380,13 @@ def _first_diff(a, b):
     return min(len(a), len(b))
 
 
-def execute(ctx, case):
+def execute(ctx, case, extra_classes=()):
     b = Bench(case, S.strategy_from_case(case["sched"]))
     res = b.run(case)
     viol, classes, nontrivial = judge(b, res, case)
-    ctx.case(case, nontrivial, sorted(classes))
+    if b.rewaits and case.get("timeout"):
+        nontrivial = True  # a timed sender was woken without getting window and had to decide how long to go on waiting
+    ctx.case(case, nontrivial, sorted(classes) + list(extra_classes))
     seen = set()
     for clause, bucket, detail in viol:
         if (clause, bucket) not in seen:
@@ -322,7 +397,8 @@ def execute(ctx, case):
 def run(ctx):
     ctx.set_budget(60, 840)
     ctx.assume("'loops forever' = send() returns 0 for 120 consecutive iterations, the last 100 of them after every other task has finished or is parked for good (state frozen)")
-    ctx.explore(case_st, lambda c: execute(ctx, c), ctx.scale(3000, 30000))
+    ctx.explore(case_st, lambda c: execute(ctx, c), ctx.scale(2800, 26000))
+    ctx.explore(timed_case_st, lambda c: execute(ctx, c, ("timed-family",)), ctx.scale(700, 7000), seed_offset=3)
 
 
 def replay(ctx, case):
